@@ -228,7 +228,8 @@ def targets(tier='quick'):
         T.append(Target('param/rows-derivs-numeric[M=%d]' % M, 'system.ParameterizedSystem.get_propagator_derivatives', scen_props(M, 'derivs-num'), post_props, RP, PROP, invoke=invoke_props,
                         replay=lambda ob: {'func': 'gradient_vs_finite_difference', 'inputs': {'obligation': ob['name']}}))
         RC = chain_registry(M)
-        T.append(Target('chain/indexing[M=%d]' % M, 'gradient._chain_rule', scen_chain(M), post_chain(M, RC), RC, PROP))
+        T.append(Target('chain/indexing[M=%d]' % M, 'gradient._chain_rule', scen_chain(M), post_chain(M, RC), RC, PROP,
+                        replay=lambda ob: {'func': 'gradient_vs_finite_difference', 'inputs': {'obligation': ob['name']}}))
     return T
 
 
